@@ -274,6 +274,7 @@ type TreeCfg struct {
 	LongNames       bool
 	BadUTF8         bool
 	SymTargets      []string // extra symlink targets
+	Caps            bool     // give some regular files a security.capability xattr (file capabilities)
 	SiblingSuffixes []string // suffixes for order-sensitive sibling names (nil = default set)
 }
 
@@ -337,7 +338,14 @@ func genMtime(t *rapid.T, label string) int64 {
 	return rapid.Int64Range(1, 2_000_000_000).Draw(t, label+"s")*1_000_000_000 + rapid.Int64Range(0, 999_999_999).Draw(t, label+"n")
 }
 
+// FileCaps is a valid VFS_CAP_REVISION_2 value (cap_net_raw+ep). The kernel drops this
+// xattr on chown and on every write to the file.
+var FileCaps = []byte{0x01, 0x00, 0x00, 0x02, 0x00, 0x20, 0x00, 0x00, 0, 0, 0, 0, 0, 0, 0, 0, 0, 0, 0, 0}
+
 func genXattrs(t *rapid.T, cfg *TreeCfg, label string, kind Kind) map[string][]byte {
+	if cfg.Caps && kind == KFile && rapid.IntRange(0, 5).Draw(t, label+"caps") == 0 {
+		return map[string][]byte{"security.capability": FileCaps}
+	}
 	if !cfg.Xattrs || rapid.IntRange(0, 3).Draw(t, label+"has") != 0 {
 		return nil
 	}
